@@ -453,15 +453,17 @@ def sib_iter(ctx: Ctx) -> List[Ob]:
                               "" if ok else "every child branch must be walked once by the method's walker"))
         # level-order branch
         lvl_calls = [c for c in ctx.env.calls_in[f] if norm(c.func) == "self._visit_level"]
-        ok = len(lvl_calls) == 1 and len(lev) == 1 and len(loops) == 1
-        if ok:
+        lev_cbs = lev + pre  # `method != POST_ORDER` covers LEVEL_ORDER as well
+        ok: Optional[bool] = None
+        if len(lvl_calls) == 1 and lev_cbs and len(loops) == 1:
             lc = lvl_calls[0]
             pcs = path_conds(ctx, f, lc)
-            ok = method_case(pcs) == "level" and never_after(ctx, f, lc, lev[0]) and never_after(ctx, f, lc, loops[0]) \
-                and any((not pol) and any(lev[0] is x for x in ast.walk(getattr(e, "_orig", e))) for e, pol in pcs) \
+            first = [c for c in lev_cbs if never_after(ctx, f, lc, c)]
+            ok = method_case(pcs) == "level" and bool(first) and never_after(ctx, f, lc, loops[0]) \
+                and any((not pol) and any(any(c is x for x in ast.walk(getattr(e, "_orig", e))) for c in first) for e, pol in pcs) \
                 and any((not pol) and norm(e) == "method == IterMethod.LEVEL_ORDER" for e, pol in path_conds(ctx, f, loops[0]))
-        obs.append(ctx.ob("SIB-ITER", ["C06"], f, "visit: level-order visits self first (add_self), then the levels, then returns", None, ok,
-                          "" if ok else "the level-order branch must not fall through to the depth-first code"))
+        obs.append(ctx.tri("SIB-ITER", ["C06"], f, "visit: level-order visits self first (add_self), then the levels, then returns", None, ok,
+                           "the level-order branch must not fall through to the depth-first code"))
     return obs
 
 
@@ -625,7 +627,7 @@ def exh2(ctx: Ctx) -> List[Ob]:
         for c in ctx.env.calls_in[g]:
             if isinstance(c.func, ast.Name) and c.func.id in ("call_traversal_cb", "call_predicate"):
                 sites += 1
-    obs.append(ctx.ob("EXH-2", ["C06", "C08"], "package", "traversal callbacks and predicates are invoked only through the normalisers", None, not offenders and sites >= 8,
-                      "" if not offenders and sites >= 8 else (f"{offenders[0][0].qualname} calls `{norm(offenders[0][1])}` directly: raised control signals are not normalised"
+    obs.append(ctx.ob("EXH-2", ["C06", "C08"], "package", "traversal callbacks and predicates are invoked only through the normalisers", None, not offenders and sites >= 6,
+                      "" if not offenders and sites >= 6 else (f"{offenders[0][0].qualname} calls `{norm(offenders[0][1])}` directly: raised control signals are not normalised"
                                                               if offenders else f"only {sites} normaliser call sites found")))
     return obs
